@@ -16,6 +16,7 @@ func init() {
 	streams["tree"] = streamTree
 	streams["treefile"] = streamTreeFile
 	streams["treestale"] = streamTreeStale
+	streams["tree_grow"] = streamTreeGrow
 }
 
 // Streams for z.Tree (z/btree.go).
@@ -57,6 +58,7 @@ type treeCase struct {
 	recycled bool   // a page was taken from the free list
 	splits   bool
 	reopened int
+	quiet    bool // bulk phases: log only the Set itself (Stats / read-back every 4096 operations)
 }
 
 func (c *treeCase) input() string {
@@ -125,6 +127,9 @@ func (c *treeCase) op(s string) {
 	if c.nops == 1 {
 		fmt.Printf("tree harness: seed=%d case=%d kind=%s pageSize=%d persistent=%v; operations:\n", c.r.Seed, c.id, c.kind, c.ps, c.path != "")
 	}
+	if c.quiet && c.nops%512 != 0 {
+		return
+	}
 	fmt.Printf("%s;", s)
 	if c.nops%8 == 0 {
 		fmt.Println()
@@ -158,6 +163,9 @@ func (c *treeCase) set(k, v uint64) {
 		delete(c.ref, k)
 	} else {
 		c.ref[k] = v
+	}
+	if c.quiet && c.nops%4096 != 0 {
+		return
 	}
 	c.emitStats()
 	c.get(k)
@@ -937,69 +945,272 @@ func streamTreeFile(r *Run) {
 	}
 }
 
-// streamTreeStale replays the witness of the stale-slice defect in Tree.Set's root split
-// (btree.go: `right := t.split(1); left := t.newNode(root.bits()); … right.maxKey()`): when the
-// newNode call for `left` is the one that grows an mmap-backed buffer (Buffer.Grow -> Truncate ->
-// mremap may move the mapping), `right` still points into the old mapping and the next read
-// faults.  In-memory trees are not affected with the Go allocator (the old slice stays readable).
+// streamTreeStale: regression oracle for finding F11 (fixed): a `node` slice held across a call
+// that may move an mmap-backed buffer.  Tree.Set's root split used to keep `right` (from
+// t.split(1)) across `left := t.newNode(...)` and to read `root.bits()` after the split; when the
+// allocation in between remaps the file (Buffer.Grow -> Truncate -> mremap) the stale slice
+// points into the old mapping and the next read faults.  In-memory trees are not affected with
+// the Go allocator (the old slice stays readable).
 //
-// Construction (page size 80 so that it takes milliseconds; the same happens with the default
-// 4096-byte pages after 4,113,022+23,936 Sets, file size 268,956,672): fill until the frontier is
-// the first page that does not fit the initial 1 MiB file, release most pages with DeleteBelow,
-// rebuild through the free list so that it runs out exactly at `right` of a root split.
-// No trace is written (the model has no notion of a stale slice); the verdict is the oracle's.
+// Construction (page size 80 so that it takes milliseconds; with the default 4096-byte pages the
+// same happens after 4,113,022 ascending Sets plus 187 resp. 188 controlled leaf splits, file
+// size 268,956,672): fill until the frontier is the first page that does not fit the initial
+// 1 MiB file, release most pages with DeleteBelow (a few survivors tune the length of the free
+// list), rebuild through the free list so that it runs out exactly at `left` (variant A) resp.
+// at `right` (variant B) of a root split.  No trace (the structural model has no notion of a
+// stale slice; the static side is the lint `Gen.TreeLint`); the verdict is the oracle's.
 func streamTreeStale(r *Run) {
 	defer z.VerifSetPageSize(os.Getpagesize())
 	debug.SetPanicOnFault(true)
 	const ps = 80
-	z.VerifSetPageSize(ps)
-	path := filepath.Join(treeWorkDir(), fmt.Sprintf("verif_tree_stale_%d.bin", os.Getpid()))
-	os.Remove(path)
-	defer os.Remove(path)
-	t, err := z.NewTreePersistent(path)
-	if err != nil {
-		r.Fail("C16", "NewTreePersistent: "+err.Error(), "stream=treestale")
-		return
-	}
-	defer func() {
-		defer func() { recover() }()
-		t.Close()
-	}()
-	r.Cases++
-	pstar := ((1 << 20) - 8) / ps
-	input := fmt.Sprintf("persistent tree, page size %d: Set(k,v) for k=10,13,16,… (v=5 when (k/3)%%4334==0, else 1) until NumPages=%d; DeleteBelow(3); then Set(2^40+j,7) for j=0,1,2,… until the root splits while the free list runs out", ps, pstar-1)
-	k := uint64(10)
-	for t.Stats().NumPages < pstar-1 {
-		v := uint64(1)
-		if (k/3)%4334 == 0 {
-			v = 5
+	for _, variant := range []struct {
+		name  string
+		mod   uint64 // survivors: v=5 when (k/3)%mod == 0
+		fresh int    // pages the root-splitting Set takes from the frontier
+	}{{"A: the buffer moves when `left` is allocated", 4334, 1}, {"B: the buffer moves when `right` is allocated", 3251, 2}} {
+		z.VerifSetPageSize(ps)
+		path := filepath.Join(treeWorkDir(), fmt.Sprintf("verif_tree_stale_%d.bin", os.Getpid()))
+		os.Remove(path)
+		t, err := z.NewTreePersistent(path)
+		if err != nil {
+			r.Fail("C16", "NewTreePersistent: "+err.Error(), "stream=treestale")
+			return
 		}
-		t.Set(k, v)
-		k += 3
-		r.Count("set")
-	}
-	if t.Stats().NumPages != pstar-1 {
-		r.Count("construction_missed_the_frontier")
-		return
-	}
-	t.DeleteBelow(3)
-	for j := uint64(0); j < 20000; j++ {
-		before := t.Stats().NumPages
-		var p any
+		r.Cases++
+		pstar := ((1 << 20) - 8) / ps
+		input := fmt.Sprintf("variant %s; persistent tree, page size %d: Set(k,v) for k=10,13,16,… (v=5 when (k/3)%%%d==0, else 1) until NumPages=%d; DeleteBelow(3); then Set(2^40+j,7) for j=0,1,2,… until the root splits while the free list runs out", variant.name, ps, variant.mod, pstar-1)
+		ref := map[uint64]uint64{}
+		k := uint64(10)
+		for t.Stats().NumPages < pstar-1 {
+			v := uint64(1)
+			if (k/3)%variant.mod == 0 {
+				v = 5
+				ref[k] = v
+			}
+			t.Set(k, v)
+			k += 3
+			r.Count("set")
+		}
+		lined := t.Stats().NumPages == pstar-1
+		if lined {
+			t.DeleteBelow(3)
+			hit := false
+			for j := uint64(0); j < 20000 && !hit; j++ {
+				before := t.Stats().NumPages
+				rootBefore := t.VerifRootKeys()
+				var p any
+				func() {
+					defer func() { p = recover() }()
+					t.Set(1<<40+j, 7)
+				}()
+				ref[1<<40+j] = 7
+				r.Count("set")
+				if p != nil {
+					r.Fail("C16", fmt.Sprintf("Tree.Set panicked on a legal key of a persistent tree (a node slice obtained before the buffer was remapped is used after it, cf. F11): %v", p),
+						fmt.Sprintf("%s; the faulting call is Set(%d,7)", input, uint64(1<<40)+j))
+					hit = true
+					break
+				}
+				if after := t.Stats().NumPages; after > before {
+					if after == before+variant.fresh && t.VerifRootKeys() == 2 && rootBefore > 2 {
+						r.Nontriv++
+						r.Count("root_split_straddles_remap")
+					} else {
+						r.Count("construction_missed_the_root_split")
+					}
+					hit = true
+				}
+			}
+			// the tree must still be the right map
+			bad := 0
+			func() {
+				defer func() {
+					if p := recover(); p != nil {
+						r.Fail("C16", fmt.Sprintf("Get panicked after the straddling root split: %v", p), input)
+					}
+				}()
+				for kk, vv := range ref {
+					if g := t.Get(kk); g != vv {
+						bad++
+					}
+				}
+			}()
+			if bad > 0 {
+				r.Fail("C16", fmt.Sprintf("%d of %d keys read a wrong value after the root split that straddles the remap", bad, len(ref)), input)
+			}
+		} else {
+			r.Count("construction_missed_the_frontier")
+		}
 		func() {
-			defer func() { p = recover() }()
-			t.Set(1<<40+j, 7)
+			defer func() { recover() }()
+			t.Close()
 		}()
-		r.Count("set")
-		if p != nil {
-			r.Nontriv++
-			r.FailSig("C16", "F10", fmt.Sprintf("Tree.Set panicked on a legal key of a persistent tree (stale `right` slice after the buffer was remapped during the root split): %v", p),
-				fmt.Sprintf("%s; the faulting call is Set(%d,7)", input, uint64(1<<40)+j))
-			return
+		os.Remove(path)
+	}
+}
+
+// ---- splits that straddle a reallocation of the backing buffer (in-memory trees)
+
+// growTracker mirrors Buffer.Grow as the tree uses it, to know which page allocation makes the
+// in-memory buffer reallocate (offset+n >= curSz; NewTree leaves curSz = 3 MiB, len(data) = 1 MiB).
+type growTracker struct{ curSz, dataLen, next, ps int }
+
+func newGrowTracker(ps int) *growTracker {
+	return &growTracker{curSz: 3 << 20, dataLen: 1 << 20, next: 3, ps: ps}
+}
+
+// alloc accounts for the allocation of page p; true if the buffer is reallocated by it.
+func (g *growTracker) alloc(p int) bool {
+	moved := false
+	if req := (p + 1) * g.ps; req > g.dataLen {
+		n := req - g.dataLen
+		if !(g.dataLen+8+n < g.curSz) {
+			by := g.curSz + n
+			if by > 1<<30 {
+				by = 1 << 30
+			}
+			if n > by {
+				by = n
+			}
+			g.curSz += by
+			moved = true
 		}
-		if t.Stats().NumPages > before {
-			r.Count("frontier_moved_without_fault")
-			return
+		g.dataLen += n
+	}
+	return moved
+}
+
+// advance accounts for the pages next..newNext-1; returns the page that moved the buffer or -1.
+func (g *growTracker) advance(newNext int) int {
+	at := -1
+	for p := g.next; p < newNext; p++ {
+		if g.alloc(p) {
+			at = p
+		}
+	}
+	g.next = newNext
+	return at
+}
+
+func (g *growTracker) nextGrowPage() int {
+	c := *g
+	for p := c.next; ; p++ {
+		if c.alloc(p) {
+			return p
+		}
+	}
+}
+
+// streamTreeGrow: for a page size and the k-th split of the root (ascending keys), find by a dry
+// run the Set that performs it and the m pages it allocates (leaf split, inner splits, the right
+// half of the root, the new page for its left half); then rebuild the same tree and pad it with
+// controlled splits of old leaves (one page each, nothing changes near the root) so that page
+// number `pos` of those m is exactly the page whose allocation makes Buffer.Grow reallocate the
+// buffer.  Afterwards every key is read back, IterateKV is checked and the tree keeps being used.
+// A node slice that is used across such a reallocation without being re-read shows up as lost
+// keys (oracle: reference map) and as a walk that differs from the model.
+func streamTreeGrow(r *Run) {
+	defer z.VerifSetPageSize(os.Getpagesize())
+	debug.SetPanicOnFault(true)
+	pageSizes := []int{512}
+	if r.Scale >= 2 {
+		pageSizes = append(pageSizes, 144, 4096)
+	}
+	id := 0
+	const stride = uint64(1) << 20
+	for _, ps := range pageSizes {
+		// dry run: the last root split (ascending keys) that can still be lined up with the first
+		// reallocation of the buffer by splitting old leaves
+		z.VerifSetPageSize(ps)
+		_, mk := z.VerifPageSize()
+		h := mk / 2 // keys an old leaf holds after ascending insertion
+		firstGrow := newGrowTracker(ps).nextGrowPage()
+		dry := z.NewTree("verif-dry")
+		splits, wantSplit, iStar, m := 0, 0, uint64(0), 0
+		for i := uint64(1); i < 1<<22; i++ {
+			before, np := dry.VerifRootKeys(), dry.Stats().NumPages
+			dry.Set(i*stride, i)
+			after := dry.Stats().NumPages
+			if after+1 > firstGrow {
+				break
+			}
+			if dry.VerifRootKeys() < before {
+				splits++
+				fill := firstGrow - (after - np - 1) - (np + 1)
+				if fill >= 0 && uint64(fill)+2 <= (i-1)/uint64(h) {
+					wantSplit, iStar, m = splits, i, after-np
+				}
+			}
+		}
+		dry.Close()
+		if iStar == 0 {
+			r.Count("grow_no_root_split_found")
+			continue
+		}
+		cf := struct{ ps, wantSplit int }{ps, wantSplit}
+		positions := []int{m - 1, m - 2}
+		if r.Scale >= 2 {
+			positions = nil
+			for p := m - 1; p >= 0; p-- {
+				positions = append(positions, p)
+			}
+		}
+		for _, pos := range positions {
+			c := newMemCase(r, id, cf.ps, fmt.Sprintf("grow: root split #%d (Set #%d of ascending keys i*2^20, %d pages), page %d of them reallocates the buffer", cf.wantSplit, iStar, m, pos))
+			id++
+			c.quiet = true
+			g := newGrowTracker(cf.ps)
+			for i := uint64(1); i < iStar && !c.dead; i++ {
+				c.set(i*stride, i)
+				g.advance(c.t.Stats().NumPages + 1)
+			}
+			growPage := g.nextGrowPage()
+			fillers := growPage - pos - g.next
+			if fillers < 0 || uint64(fillers) > (iStar-1)/uint64(h)-2 {
+				r.Count("grow_cannot_line_up")
+				c.finish()
+				continue
+			}
+			ok := true
+			for j := 0; j < fillers && ok && !c.dead; j++ {
+				np := c.t.Stats().NumPages
+				base := (uint64(h)*uint64(j) + 1) * stride
+				for f := uint64(1); f <= uint64(mk-h) && !c.dead; f++ {
+					c.set(base+f, base+f)
+				}
+				if c.dead {
+					break
+				}
+				if c.t.Stats().NumPages != np+1 {
+					ok = false
+				}
+				g.advance(c.t.Stats().NumPages + 1)
+			}
+			if !ok || c.dead || g.next+pos != growPage {
+				r.Count("grow_filler_did_not_line_up")
+				c.finish()
+				continue
+			}
+			c.quiet = false
+			c.walk()
+			rk := c.t.VerifRootKeys()
+			c.set(iStar*stride, iStar) // the Set that splits the root while the buffer moves
+			moved := g.advance(c.t.Stats().NumPages + 1)
+			if !c.dead && c.t.VerifRootKeys() < rk && moved == growPage {
+				r.Count("grow_split_straddles_reallocation")
+				c.splits, c.recycled = true, true // counts as non-trivial
+			} else {
+				r.Count("grow_missed")
+			}
+			c.walk()
+			c.quiet = true
+			c.sweep(true)
+			c.quiet = false
+			c.iterate(0, 0)
+			for i := iStar + 1; i < iStar+300 && !c.dead; i++ {
+				c.set(i*stride, i)
+			}
+			c.finish()
 		}
 	}
 }
